@@ -27,6 +27,11 @@ class RtWorld:
         clock_mod.time = sched.time_module()
         clock_mod.datetime = sched.datetime_class()
         jc_mod.threading = shim
+        import bardolph.controller.script_job as sj_mod
+        self.sj_mod = sj_mod
+        self.sj_saved = getattr(sj_mod, 'threading', None)
+        if self.sj_saved is not None:
+            sj_mod.threading = shim             # (a lock held across a switch point must be a scheduler lock)
         self.rec = simlan.Recorder()
         self.net = simlan.SimNet(population, self.rec)
         injection.configure()
@@ -53,4 +58,6 @@ class RtWorld:
     def close(self):
         clock_mod, jc_mod = self.mods
         clock_mod.threading, clock_mod.time, clock_mod.datetime, jc_mod.threading = self.saved
+        if self.sj_saved is not None:
+            self.sj_mod.threading = self.sj_saved
         logging.getLogger().removeHandler(self.log)
